@@ -131,6 +131,8 @@ where
         Arc<K>: Borrow<Q>,
         Q: Hash + Eq + ?Sized,
     {
+        #[cfg(mini_moka_verif)]
+        crate::verif::point("ck");
         match self.inner.get(key) {
             None => false,
             Some(entry) => {
@@ -150,6 +152,8 @@ where
         Arc<K>: Borrow<Q>,
         Q: Hash + Eq + ?Sized,
     {
+        #[cfg(mini_moka_verif)]
+        crate::verif::point("get.map");
         let record = |op, now| {
             self.record_read_op(op, now)
                 .expect("Failed to record a get op");
@@ -255,8 +259,12 @@ where
         op: ReadOp<K, V>,
         now: Instant,
     ) -> Result<(), TrySendError<ReadOp<K, V>>> {
+        #[cfg(mini_moka_verif)]
+        crate::verif::point("hk.r");
         self.apply_reads_if_needed(self.inner.as_ref(), now);
         let ch = &self.read_op_ch;
+        #[cfg(mini_moka_verif)]
+        crate::verif::point("send.r");
         match ch.try_send(op) {
             // Discard the ReadOp when the channel is full.
             Ok(()) | Err(TrySendError::Full(_)) => Ok(()),
@@ -652,6 +660,8 @@ where
     S: BuildHasher + Clone + Send + Sync + 'static,
 {
     fn sync(&self, max_repeats: usize) {
+        #[cfg(mini_moka_verif)]
+        crate::verif::point("sync.lock");
         let mut deqs = self.deques.lock().expect("lock poisoned");
         let mut calls = 0;
         let mut should_sync = true;
@@ -683,12 +693,16 @@ where
         }
 
         if self.has_expiry() || self.has_valid_after() {
+            #[cfg(mini_moka_verif)]
+            crate::verif::point("m.expire");
             self.evict_expired(&mut deqs, batch_size::EVICTION_BATCH_SIZE, &mut counters);
         }
 
         // Evict if this cache has more entries than its capacity.
         let weights_to_evict = self.weights_to_evict(&counters);
         if weights_to_evict > 0 {
+            #[cfg(mini_moka_verif)]
+            crate::verif::point("m.evict");
             self.evict_lru_entries(
                 &mut deqs,
                 batch_size::EVICTION_BATCH_SIZE,
@@ -697,6 +711,8 @@ where
             );
         }
 
+        #[cfg(mini_moka_verif)]
+        crate::verif::point("m.end");
         debug_assert_eq!(self.entry_count.load(), current_ec);
         debug_assert_eq!(self.weighted_size.load(), current_ws);
         self.entry_count.store(counters.entry_count);
@@ -783,6 +799,8 @@ where
         let mut freq = self.frequency_sketch.write().expect("lock poisoned");
         let ch = &self.read_op_ch;
         for _ in 0..count {
+            #[cfg(mini_moka_verif)]
+            crate::verif::point("m.read");
             match ch.try_recv() {
                 Ok(Hit(hash, entry, timestamp)) => {
                     #[cfg(mini_moka_verif)]
@@ -819,6 +837,8 @@ where
         let ch = &self.write_op_ch;
 
         for _ in 0..count {
+            #[cfg(mini_moka_verif)]
+            crate::verif::point("m.write");
             match ch.try_recv() {
                 Ok(Upsert {
                     key_hash: kh,
